@@ -365,6 +365,34 @@ def is_diagnosed(end):
                 or "GOSK :" in end.get("stdout", ""))
 
 
+def replay(ctx, prop, path):
+    """Re-run one recorded violation: assemble its source with the real gosk (hooks on) and validate the run again."""
+    import flow
+    from findings import Findings
+    d = json.load(open(path))
+    if not d.get("source") or d.get("stmts") is None:
+        print("replay file has no program (property %s records sources only for assembler runs); content:" % prop)
+        print(json.dumps(d, indent=1)[:3000])
+        return 2
+    ctx.build()
+    R = flow.Runner(ctx)
+    job = {k: v for k, v in (d.get("job") or {}).items() if k in ("pre", "maxout")}
+    R.add(d["stmts"], src=d["source"], **job)
+    R.run()
+    for e in R.results[1]:
+        print(json.dumps(e)[:400])
+    ver = ctx.validate("Trace_Asm", R.traces(), nproc=1)
+    F = Findings()
+    viol, known, other = flow.classify(ctx, ver, R, F, prop)
+    for r in ver["rej"]:
+        print("REJ", json.dumps(r)[:600])
+    print("replay: %d rejection(s) tagged %s, %d explained by known findings, %d of other properties" % (len(viol), prop, len(known), len(other)))
+    if viol:
+        print("VIOLATION property=%s replay=%s" % (prop, path))
+        return 1
+    return 0
+
+
 def main_wrapper(fn):
     """Run a check function(ctx) -> (violations:list, known:list) with the common exit protocol."""
     import argparse
@@ -378,7 +406,10 @@ def main_wrapper(fn):
     ctx.replay = a.replay
     rc = 2
     try:
-        rc = fn(ctx)
+        if a.replay:
+            rc = replay(ctx, prop, a.replay)
+        else:
+            rc = fn(ctx)
     except Machinery as ex:
         log("MACHINERY FAILURE: %s" % ex)
         rc = 2
